@@ -182,7 +182,7 @@ func (x *Exec) enterLoopHeader(cfg *Config, f *Frame, from, to *ssa.BasicBlock, 
 			if name == "$top" {
 				continue // only ever grows: handled below
 			}
-			if mods[name] || mods[strings.SplitN(name, "!len", 2)[0]] || mods[strings.SplitN(name, "!at", 2)[0]] {
+			if mods[name] || mods[strings.SplitN(name, "!len", 2)[0]] || mods[strings.SplitN(name, "!at", 2)[0]] || (mods["$callret"] && strings.HasPrefix(name, "$callret!")) {
 				prev := st.heap[name]
 				st.heap[name] = x.d.Fresh(fmt.Sprintf("L%d!%s", ord, name), st.heap[name].Sort)
 				x.loopFrame(st, name, prev)
@@ -279,7 +279,7 @@ func (x *Exec) loopFrameTerm(st *State, name string, cur, prev Term) {
 // entry version.
 func (x *Exec) pendingHavoc(st *State, mods map[string]bool, ord int) {
 	for name := range mods {
-		if strings.HasPrefix(name, "$") {
+		if strings.HasPrefix(name, "$") && !isGhostCallArr(name) {
 			continue
 		}
 		if _, ok := st.heap[name]; ok {
@@ -323,6 +323,9 @@ func (x *Exec) loopModSet(li *loopInfo, h *ssa.BasicBlock) (map[string]bool, boo
 		case ssa.CallInstruction:
 			common := i.Common()
 			mods["$top"] = true
+			// any call may execute unknown function values, atomics, Once,
+			// channel operations: the ghost histories change
+			x.ghostCallMods(mods)
 			if common.IsInvoke() {
 				if c := x.ifaceContract(common.Value.Type(), common.Method.Name()); c != nil {
 					x.contractMods(c, nil, mods)
@@ -642,4 +645,30 @@ func shortFuncName(key string) string {
 		return key[i+1:]
 	}
 	return key
+}
+
+// ghostCallMods: the ghost arrays that calls inside a loop body may change
+// (call counters and histories, once / atomic / channel state).
+func (x *Exec) ghostCallMods(mods map[string]bool) {
+	x.regArr("$calls", SArr(SInt, x.idxSort()))
+	mods["$calls"] = true
+	x.regArr("$oncedone", SArr(SInt, SBool))
+	mods["$oncedone"] = true
+	x.regArr("$atomic", SArr(SInt, x.idxSort()))
+	mods["$atomic"] = true
+	x.regArr("$atomicb", SArr(SInt, SBool))
+	mods["$atomicb"] = true
+	x.regArr("$closed", SArr(SInt, SBool))
+	mods["$closed"] = true
+	x.regArr("$recvready", SArr(SInt, SBool))
+	mods["$recvready"] = true
+	mods["$callret"] = true
+}
+
+func isGhostCallArr(name string) bool {
+	switch name {
+	case "$calls", "$oncedone", "$atomic", "$atomicb", "$closed", "$recvready":
+		return true
+	}
+	return false
 }
